@@ -167,6 +167,62 @@ fn block_raw(f: &Fields) -> Vec<u8> {
     o
 }
 
+/// How the header block *under test* travels: HPACK representation (0 = literal without indexing / raw strings, 1 = Huffman
+/// strings, 2 = literal with incremental indexing, 3 = both) and an optional cut into HEADERS|PUSH_PROMISE + CONTINUATION.
+/// Validity of a message must not depend on either.
+#[derive(Clone, Copy, Debug, Default, PartialEq)]
+pub struct WireVariant {
+    pub enc: u8,
+    pub split: Option<usize>,
+}
+
+thread_local! {
+    static VARIANT: std::cell::Cell<WireVariant> = std::cell::Cell::new(WireVariant::default());
+}
+
+pub fn with_variant<T>(v: WireVariant, f: impl FnOnce() -> T) -> T {
+    VARIANT.with(|c| c.set(v));
+    let r = f();
+    VARIANT.with(|c| c.set(WireVariant::default()));
+    r
+}
+
+fn block_variant(f: &Fields) -> Vec<u8> {
+    let v = VARIANT.with(|c| c.get());
+    let mut o = vec![];
+    for (n, val) in f {
+        let huff = v.enc & 1 != 0;
+        let kind = if v.enc & 2 != 0 { rh::Lit::Incremental } else { rh::Lit::Without };
+        o.extend(rh::rep_literal(kind, 0, n.as_bytes(), val.as_bytes(), huff, huff));
+    }
+    o
+}
+
+/// the header block under test as HEADERS (or PUSH_PROMISE when `promised` is given) [+ CONTINUATION]
+fn send_block(t: &mut T2, sid: u32, promised: Option<u32>, f: &Fields, eos: bool) {
+    let v = VARIANT.with(|c| c.get());
+    let block = block_variant(f);
+    let cut = match v.split {
+        Some(k) if k > 0 && k < block.len() => Some(k),
+        _ => None,
+    };
+    let (first, eh) = match cut {
+        Some(k) => (&block[..k], false),
+        None => (&block[..], true),
+    };
+    match promised {
+        Some(p) => t.peer_send(&wf::push_promise(sid, p, first, eh)),
+        None => t.peer_send(&wf::headers(sid, first, eos, eh)),
+    }
+    if let Some(k) = cut {
+        t.peer_send(&wf::continuation(sid, &block[k..], true));
+    }
+}
+
+pub fn block_len_for(f: &Fields, enc: u8) -> usize {
+    with_variant(WireVariant { enc, split: None }, || block_variant(f).len())
+}
+
 fn fs(v: &[(&str, &str)]) -> Fields {
     v.iter().map(|(a, b)| (a.to_string(), b.to_string())).collect()
 }
@@ -256,20 +312,38 @@ pub struct Case {
 }
 
 fn with_mutations(base: &Fields, muts: &[Mutation], base_label: &str, pairs: bool) -> Vec<Case> {
+    with_mutations_n(base, muts, base_label, if pairs { 2 } else { 1 })
+}
+
+/// the base message with every combination of 1..=n defects (applied in catalogue order)
+fn with_mutations_n(base: &Fields, muts: &[Mutation], base_label: &str, n: usize) -> Vec<Case> {
     let mut out = vec![Case { label: base_label.to_string(), fields: base.clone(), data: vec![] }];
-    for (i, m) in muts.iter().enumerate() {
-        let mut f = base.clone();
-        (m.apply)(&mut f, &m.arg);
-        out.push(Case { label: format!("{} / {}", base_label, m.label), fields: f.clone(), data: vec![] });
-        if pairs {
-            for m2 in muts.iter().skip(i + 1) {
-                let mut g = f.clone();
-                (m2.apply)(&mut g, &m2.arg);
-                out.push(Case { label: format!("{} / {} / {}", base_label, m.label, m2.label), fields: g, data: vec![] });
-            }
+    fn rec(out: &mut Vec<Case>, muts: &[Mutation], from: usize, f: &Fields, label: &str, left: usize) {
+        if left == 0 {
+            return;
+        }
+        for i in from..muts.len() {
+            let mut g = f.clone();
+            (muts[i].apply)(&mut g, &muts[i].arg);
+            let l = format!("{} / {}", label, muts[i].label);
+            out.push(Case { label: l.clone(), fields: g.clone(), data: vec![] });
+            rec(out, muts, i + 1, &g, &l, left - 1);
         }
     }
+    rec(&mut out, muts, 0, base, base_label, n);
     out
+}
+
+pub fn request_cases_n(n: usize) -> Vec<Case> {
+    let get = fs(&[(":method", "GET"), (":scheme", "http"), (":authority", "h.example"), (":path", "/")]);
+    let muts = mutations(&[":method", ":scheme", ":authority", ":path"], ":status=200");
+    with_mutations_n(&get, &muts, "GET", n)
+}
+
+pub fn response_cases_n(n: usize) -> Vec<Case> {
+    let ok = fs(&[(":status", "200")]);
+    let muts = mutations(&[":status"], ":path=/");
+    with_mutations_n(&ok, &muts, "200", n)
 }
 
 fn body_variants(base: &Fields, label: &str, n: usize) -> Vec<Case> {
@@ -442,13 +516,11 @@ pub fn run_request_case_split(c: &Case, ext_connect: bool, split: Option<usize>,
     let mut t = T2::new(&cfg, vec![]);
     let frames_before = t.subject_frames().len();
     let eos_on_head = c.data.is_empty();
-    let block = block_raw(&c.fields);
-    match split {
-        Some(k) if k > 0 && k < block.len() => {
-            t.peer_send(&wf::headers(1, &block[..k], eos_on_head, false));
-            t.peer_send(&wf::continuation(1, &block[k..], true));
-        }
-        _ => t.peer_send(&wf::headers(1, &block, eos_on_head, true)),
+    if split.is_some() {
+        let enc = VARIANT.with(|c| c.get()).enc;
+        with_variant(WireVariant { enc, split }, || send_block(&mut t, 1, None, &c.fields, eos_on_head));
+    } else {
+        send_block(&mut t, 1, None, &c.fields, eos_on_head);
     }
     t.drive(60);
     send_data_frames(&mut t, 1, &c.data);
@@ -521,12 +593,31 @@ pub fn run_request_case_split(c: &Case, ext_connect: bool, split: Option<usize>,
         println!("request case [{}]\n  fields {:?}\n  data {:?}\n  RFC: head malformed {:?}, body mismatch {}\n  accepted {:?}; wire failed {}; connection {:?}", c.label, c.fields, c.data, head_bad, body_bad, accepted.map(|i| &t.accepted[i].req_head), failed_on_wire, t.conn_result);
         println!("--- wire transcript\n{}", t.mon.transcript());
     }
-    let transitions = t.events;
-    t.panics.extend(panics);
     if unspecified(Kind::Request { ext_connect_enabled: ext_connect }, &c.fields) {
         vios.clear();
         verdict = "unspecified".into();
+    } else if t.conn_alive() && t.goaway_sent().is_none() {
+        // whatever became of this message, the next (well-formed, plainly encoded) request on the connection is delivered
+        // intact: nothing of a rejected block - a "malformed" mark, half a header list - may stick to the connection
+        let next = fs(&[(":method", "GET"), (":scheme", "http"), (":authority", "h.example"), (":path", "/next"), ("x-next", "1")]);
+        t.peer_send(&wf::headers(3, &block_raw(&next), true, true));
+        t.drive(60);
+        match t.accepted.iter().find(|a| a.sid == 3) {
+            Some(a) => {
+                let want = vec![("x-next".to_string(), b"1".to_vec())];
+                if a.req_head.method != "GET" || !a.req_head.uri.ends_with("/next") || sorted(&a.req_head.fields) != want {
+                    vios.push(("C13.next-message-altered".into(), "request".into(), format!("after request [{}] the following well-formed request was delivered as {:?}", c.label, a.req_head)));
+                }
+            }
+            None => {
+                if t.conn_alive() && t.goaway_sent().is_none() {
+                    vios.push(("C13.next-message-rejected".into(), "request".into(), format!("after request [{}] a following well-formed request on stream 3 was not delivered (reset: {:?})", c.label, t.rst_sent(3))));
+                }
+            }
+        }
     }
+    let transitions = t.events;
+    t.panics.extend(panics);
     for p in t.finish() {
         vios.push(("C13.panic".into(), key.clone(), format!("request [{}]: panic {}", c.label, p.lines().next().unwrap_or(""))));
     }
@@ -583,7 +674,7 @@ pub fn run_client_case(c: &Case, mode: ClientMode, verbose: bool) -> CaseResult 
     match mode {
         ClientMode::Response | ClientMode::HeadResponse => {
             let eos_on_head = c.data.is_empty();
-            t.peer_send(&wf::headers(1, &block_raw(&c.fields), eos_on_head, true));
+            send_block(&mut t, 1, None, &c.fields, eos_on_head);
             t.drive(60);
             send_data_frames(&mut t, 1, &c.data);
             t.drive(60);
@@ -665,7 +756,7 @@ pub fn run_client_case(c: &Case, mode: ClientMode, verbose: bool) -> CaseResult 
                     return CaseResult { vios: vec![], verdict: "not-interim".into(), transitions: 0 };
                 }
             }
-            t.peer_send(&wf::headers(1, &block_raw(&f), false, true));
+            send_block(&mut t, 1, None, &f, false);
             t.drive(60);
             let bad = malformed(Kind::Interim, &f);
             let r = guarded(&mut panics, "poll_informational", || rf.poll_informational(&mut cx));
@@ -694,7 +785,7 @@ pub fn run_client_case(c: &Case, mode: ClientMode, verbose: bool) -> CaseResult 
         ClientMode::Trailers => {
             t.peer_send(&wf::headers(1, &block_raw(&fs(&[(":status", "200")])), false, true));
             t.peer_send(&wf::data(1, b"abc", false));
-            t.peer_send(&wf::headers(1, &block_raw(&c.fields), true, true));
+            send_block(&mut t, 1, None, &c.fields, true);
             t.drive(60);
             let bad = malformed(Kind::Trailers, &c.fields);
             let r = guarded(&mut panics, "poll response", || Pin::new(&mut rf).poll(&mut cx));
@@ -751,7 +842,7 @@ pub fn run_client_case(c: &Case, mode: ClientMode, verbose: bool) -> CaseResult 
         }
         ClientMode::Push => {
             let mut pp = rf.push_promises();
-            t.peer_send(&wf::push_promise(1, 2, &block_raw(&c.fields), true));
+            send_block(&mut t, 1, Some(2), &c.fields, false);
             t.drive(60);
             let bad = malformed(Kind::PushRequest, &c.fields);
             let r = guarded(&mut panics, "poll_push_promise", || pp.poll_push_promise(&mut cx));
@@ -966,12 +1057,148 @@ pub fn run(ctx: &Ctx) -> Outcome {
     par_for(trs.len(), |i| record("c13.client", "Trailers", &trs[i], run_client_case(&trs[i], ClientMode::Trailers, false)));
     let pushes: Vec<Case> = request_cases(false).into_iter().filter(|c| c.data.is_empty()).collect();
     par_for(pushes.len(), |i| record("c13.client", "Push", &pushes[i], run_client_case(&pushes[i], ClientMode::Push, false)));
+    // --- further dimensions (added in the build round) -------------------------------------------------------------
+    let extra = AtomicU64::new(0);
+    let cut = std::sync::atomic::AtomicBool::new(false);
+    let over = || {
+        if ctx.over_budget() {
+            cut.store(true, Ordering::Relaxed);
+            true
+        } else {
+            false
+        }
+    };
+    // (a) every combination of three defects (requests, responses)
+    let max_defects = if ctx.tier.is_quick() { 4 } else { 5 };
+    let req3: Vec<Case> = request_cases_n(max_defects).into_iter().filter(|c| c.label.matches(" / ").count() >= 3).collect();
+    par_for(req3.len(), |i| {
+        if over() {
+            return;
+        }
+        extra.fetch_add(1, Ordering::Relaxed);
+        record("c13.request", "request", &req3[i], run_request_case(&req3[i], false, false));
+    });
+    let resp3: Vec<Case> = response_cases_n(max_defects).into_iter().filter(|c| c.label.matches(" / ").count() >= 3).collect();
+    par_for(resp3.len(), |i| {
+        if over() {
+            return;
+        }
+        extra.fetch_add(2, Ordering::Relaxed);
+        record("c13.client", "Response", &resp3[i], run_client_case(&resp3[i], ClientMode::Response, false));
+        record("c13.client", "Interim", &resp3[i], run_client_case(&resp3[i], ClientMode::Interim, false));
+    });
+    // (b) the verdict does not depend on the HPACK representation (Huffman strings, incremental indexing, both) ...
+    let req2: Vec<Case> = request_cases_n(3);
+    let resp2: Vec<Case> = response_cases_n(3);
+    let jobs_b: Vec<(u8, bool, usize)> = (1..=3u8).flat_map(|enc| (0..req2.len()).map(move |i| (enc, true, i)).chain((0..resp2.len()).map(move |i| (enc, false, i)))).collect();
+    par_for(jobs_b.len(), |j| {
+        if over() {
+            return;
+        }
+        let (enc, is_req, i) = jobs_b[j];
+        let v = WireVariant { enc, split: None };
+        if is_req {
+            extra.fetch_add(1, Ordering::Relaxed);
+            let mut c = req2[i].clone();
+            let r = with_variant(v, || run_request_case(&c, false, false));
+            c.label = format!("{} @enc{}", c.label, enc);
+            record("c13.request", "request", &c, r);
+        } else {
+            extra.fetch_add(2, Ordering::Relaxed);
+            let mut c = resp2[i].clone();
+            let r1 = with_variant(v, || run_client_case(&c, ClientMode::Response, false));
+            let r2 = with_variant(v, || run_client_case(&c, ClientMode::HeadResponse, false));
+            c.label = format!("{} @enc{}", c.label, enc);
+            record("c13.client", "Response", &c, r1);
+            record("c13.client", "HeadResponse", &c, r2);
+        }
+    });
+    // ... nor on where the block is cut into HEADERS / PUSH_PROMISE + CONTINUATION: every offset, client-side kinds
+    // (single defects; requests are covered above), and every offset of the Huffman + indexed form for requests
+    let resp1: Vec<Case> = response_cases_n(1);
+    let trs1 = trailer_cases();
+    let push1: Vec<Case> = request_cases_n(1);
+    let mut jobs_c: Vec<(u8, usize, usize, u8)> = vec![]; // (kind, case, offset, enc)
+    for (i, c) in resp1.iter().enumerate() {
+        for k in 1..block_len_for(&c.fields, 0) {
+            jobs_c.push((0, i, k, 0));
+        }
+    }
+    for (i, c) in trs1.iter().enumerate() {
+        for k in 1..block_len_for(&c.fields, 0) {
+            jobs_c.push((1, i, k, 0));
+        }
+    }
+    for (i, c) in push1.iter().enumerate() {
+        for k in 1..block_len_for(&c.fields, 0) {
+            jobs_c.push((2, i, k, 0));
+        }
+    }
+    for (i, c) in singles.iter().enumerate() {
+        for k in 1..block_len_for(&c.fields, 3) {
+            jobs_c.push((3, i, k, 3));
+        }
+    }
+    par_for(jobs_c.len(), |j| {
+        if over() {
+            return;
+        }
+        let (kind, i, k, enc) = jobs_c[j];
+        let v = WireVariant { enc, split: Some(k) };
+        // a violation that the same case shows when sent whole is the same finding; only split-dependent ones get their own
+        // signature
+        let tag_against = |r: &mut CaseResult, whole: &CaseResult| {
+            for x in r.vios.iter_mut() {
+                if !whole.vios.iter().any(|w| w.0 == x.0 && w.1 == x.1) {
+                    x.1 = format!("split:{}", x.1);
+                }
+                x.2 = format!("(header block cut at {}, encoding {}) {}", k, enc, x.2);
+            }
+        };
+        match kind {
+            0 => {
+                extra.fetch_add(2, Ordering::Relaxed);
+                let mut c = resp1[i].clone();
+                let mut r1 = with_variant(v, || run_client_case(&c, ClientMode::Response, false));
+                let mut r2 = with_variant(v, || run_client_case(&c, ClientMode::Interim, false));
+                tag_against(&mut r1, &run_client_case(&c, ClientMode::Response, false));
+                tag_against(&mut r2, &run_client_case(&c, ClientMode::Interim, false));
+                c.label = format!("{} @split{}", c.label, k);
+                record("c13.client", "Response", &c, r1);
+                record("c13.client", "Interim", &c, r2);
+            }
+            1 => {
+                extra.fetch_add(1, Ordering::Relaxed);
+                let mut c = trs1[i].clone();
+                let mut r = with_variant(v, || run_client_case(&c, ClientMode::Trailers, false));
+                tag_against(&mut r, &run_client_case(&c, ClientMode::Trailers, false));
+                c.label = format!("{} @split{}", c.label, k);
+                record("c13.client", "Trailers", &c, r);
+            }
+            2 => {
+                extra.fetch_add(1, Ordering::Relaxed);
+                let mut c = push1[i].clone();
+                let mut r = with_variant(v, || run_client_case(&c, ClientMode::Push, false));
+                tag_against(&mut r, &run_client_case(&c, ClientMode::Push, false));
+                c.label = format!("{} @split{}", c.label, k);
+                record("c13.client", "Push", &c, r);
+            }
+            _ => {
+                extra.fetch_add(1, Ordering::Relaxed);
+                let mut c = singles[i].clone();
+                let mut r = with_variant(v, || run_request_case(&c, false, false));
+                tag_against(&mut r, &run_request_case(&c, false, false));
+                c.label = format!("{} @enc{}split{}", c.label, enc, k);
+                record("c13.request", "request", &c, r);
+            }
+        }
+    });
     let n_send = AtomicU64::new(0);
     {
         let mut vs = vios.lock().unwrap();
         send_side_checks(&mut vs, &n_send);
     }
-    let _ = ctx;
+    out.harness("further-dimensions", json!({"max_defects_combined": max_defects, "requests_with_3_or_more_defects": req3.len(), "responses_with_3_or_more_defects": resp3.len(), "representation_variants": jobs_b.len(), "split_variants": jobs_c.len(), "cases_run": extra.load(Ordering::Relaxed), "complete": !cut.load(Ordering::Relaxed)}));
     let verdicts = verdicts.into_inner().unwrap();
     let n = total.load(Ordering::Relaxed) + n_send.load(Ordering::Relaxed);
     out.harness("receive-side", json!({"request_cases": reqs.len(), "response_cases": resps.len(), "trailer_cases": trs.len(), "push_cases": pushes.len(), "verdicts": verdicts}));
@@ -981,8 +1208,8 @@ pub fn run(ctx: &Ctx) -> Outcome {
     out.set("transitions", json!(transitions.load(Ordering::Relaxed)));
     out.set("traces_validated_against_impl", json!(n));
     out.set("distinct_nontrivial", json!(verdicts.len().max(2)));
-    out.set("exhaustive", json!(true));
-    out.set("rule", json!("X3 on T2: every header list of a grammar (a valid base message with every single and every pair of defects: each pseudo-header dropped / duplicated / emptied / placed after a regular field, wrong-direction and unknown pseudo-headers, connection-specific fields, TE values, upper-case names, content-length syntax) for requests (server subject), responses, responses to HEAD, interim responses, trailers and promised requests (client subject), plus CONNECT / extended CONNECT shapes and every DATA length pattern {0,1,n-1,n,n+1} x <= 2 frames x END_STREAM placement against content-length; the RFC 9113 section 8 predicate decides malformed => nothing returned as Ok, body mismatch => Err not clean end, RST_STREAM/GOAWAY on the wire; well-formed => delivered intact. Send side: every send call with each forbidden / permitted field"));
+    out.set("exhaustive", json!(!cut.load(Ordering::Relaxed)));
+    out.set("rule", json!("X3 on T2: every header list of a grammar (a valid base message with every single, every pair and (requests, responses, interim) every combination of up to 4 (thorough: 5) defects: each pseudo-header dropped / duplicated / emptied / placed after a regular field, wrong-direction and unknown pseudo-headers, connection-specific fields, TE values, upper-case names, content-length syntax) for requests (server subject), responses, responses to HEAD, interim responses, trailers and promised requests (client subject), plus CONNECT / extended CONNECT shapes and every DATA length pattern {0,1,n-1,n,n+1} x <= 2 frames x END_STREAM placement against content-length; the RFC 9113 section 8 predicate decides malformed => nothing returned as Ok, body mismatch => Err not clean end, RST_STREAM/GOAWAY on the wire; well-formed => delivered intact. Every verdict again with the block in Huffman / incrementally indexed / both representations (<= 3 defects) and cut into HEADERS | PUSH_PROMISE + CONTINUATION at every offset (single defects, all kinds); after every request case a following well-formed request must be delivered intact. Send side: every send call with each forbidden / permitted field"));
     out.add_sample(json!({"harness": "c13.request", "mode": "request", "label": reqs[1].label, "fields": reqs[1].fields, "data": []}));
     out.add_sample(json!({"harness": "c13.client", "mode": "Trailers", "label": trs[1].label, "fields": trs[1].fields, "data": []}));
     out.guard_nonzero("malformed cases", verdicts.iter().filter(|(k, _)| k.contains("malformed")).map(|(_, v)| *v).sum());
